@@ -69,6 +69,11 @@ pub fn new_world(cluster: &str) -> Box<dyn World> {
     match cluster {
         "gw" => Box::new(gw::GwWorld::new()),
         "tk" => Box::new(tk::TkWorld::new()),
+        "tkw" => Box::new({
+            let mut w = tk::TkWorld::new();
+            w.blob = true;
+            w
+        }),
         "gs" => Box::new(gs::GsWorld::new()),
         "op" => Box::new(ops::OpsWorld::new()),
         "up" => Box::new(up::UpWorld::new()),
